@@ -35,7 +35,8 @@ CONSTANTS
     MaxEvents,     \* how many terminating events may fire in one behaviour (1 or 2)
     PhaseSet,      \* phases at which the first event may fire
     Ev1Set, Ev2Set,\* first / second (racing) event alphabets
-    WfcBudget      \* wait_for_connected() calls the application makes (0..2)
+    WfcBudget,     \* wait_for_connected() calls the application makes (0..2)
+    Answerer       \* BOOLEAN: the endpoint answers an offer instead of making one
 
 DeviationNames == {
     "OverwriteClosed",       \* loops publish peer state without looking at the current value
@@ -53,7 +54,7 @@ IsDirect == Mode \in {"Srtp", "Rtp"}
 Dc == HasDc /\ Mode = "WebRtc"
 
 PeerStates == {"New", "Connected", "Disconnected", "Failed", "Closed"}
-SigStates  == {"Stable", "HaveLocalOffer", "Closed"}
+SigStates  == {"Stable", "HaveLocalOffer", "HaveRemoteOffer", "Closed"}
 Reasons    == {"None", "LocalClose", "Dropped", "IceFailed", "IceDisconnected", "DtlsFailed", "DtlsClosed",
                "SctpRemoteAbort", "SctpRemoteShutdown", "SctpHeartbeatTimeout", "TransportStartFailed",
                "Unknown"}
@@ -127,7 +128,7 @@ GuardEffect ==
 PhaseNow ==
     CASE ap = "init"                                   -> "created"
       [] ap = "gathering"                              -> "gathering"
-      [] ap = "offerMade"                              -> "offerMade"
+      [] ap \in {"offerMade", "haveOffer"}             -> "offerMade"
       [] ap = "reneg"                                  -> "renegotiating"
       [] ap = "signaled" /\ lp = "sawChecking"         -> "checking"
       [] ap = "signaled" /\ lp = "sawConn"             -> "iceConnected"
@@ -166,6 +167,7 @@ Init ==
 AppVars == <<ap>>
 
 A_MakeOffer ==
+    /\ ~Answerer
     /\ ap = "init" /\ handles > 0 /\ sig = "Stable"
     /\ ap' = "gathering"
     /\ chan' = IF Dc THEN "connecting" ELSE chan
@@ -200,6 +202,31 @@ A_SetRemote ==
             /\ sock' = IF iceT = "New" /\ IsDirect THEN TRUE ELSE sock
        ELSE sig' = sig /\ ap' = "sigFailed" /\ UNCHANGED <<role, iceT, sock>>
     /\ UNCHANGED <<peer, reason, seenL, seenC, lp, cp, cval, cnext, dtls, dtask, dpermit,
+                   seenD, sctp, stask, srun, spermit, swhy, loops, chan, opened, closes, grace, cl, handles,
+                   dropped, calls, sendpc, peerAlive, alertIn, abortIn, shutdownIn, wfcLeft, fired>>
+
+\* answerer: set_remote_description(offer) - signaling commit, DTLS role, ICE start; the channel the offerer
+\* announced will be opened by its DCEP message
+A_SetRemoteOffer ==
+    /\ Answerer /\ ap = "init" /\ handles > 0
+    /\ IF sig = "Stable"
+       THEN /\ sig' = "HaveRemoteOffer" /\ ap' = "haveOffer"
+            /\ role' = IF Mode = "WebRtc" THEN "server" ELSE "none"
+            /\ iceT' = IF iceT = "New" THEN (IF IsDirect THEN "Connected" ELSE "Checking") ELSE iceT
+            /\ sock' = IF iceT = "New" /\ IsDirect THEN TRUE ELSE sock
+            /\ chan' = IF Dc THEN "connecting" ELSE chan
+       ELSE sig' = sig /\ ap' = "sigFailed" /\ UNCHANGED <<role, iceT, sock, chan>>
+    /\ UNCHANGED <<peer, reason, seenL, seenC, lp, cp, cval, cnext, dtls, dtask, dpermit,
+                   seenD, sctp, stask, srun, spermit, swhy, loops, opened, closes, grace, cl, handles,
+                   dropped, calls, sendpc, peerAlive, alertIn, abortIn, shutdownIn, wfcLeft, fired>>
+
+\* answerer: set_local_description(answer)
+A_SetLocalAnswer ==
+    /\ Answerer /\ ap = "haveOffer" /\ handles > 0
+    /\ IF sig = "HaveRemoteOffer"
+       THEN sig' = "Stable" /\ ap' = "signaled"
+       ELSE sig' = sig /\ ap' = "sigFailed"
+    /\ UNCHANGED <<peer, reason, iceT, sock, seenL, seenC, role, lp, cp, cval, cnext, dtls, dtask, dpermit,
                    seenD, sctp, stask, srun, spermit, swhy, loops, chan, opened, closes, grace, cl, handles,
                    dropped, calls, sendpc, peerAlive, alertIn, abortIn, shutdownIn, wfcLeft, fired>>
 
@@ -390,6 +417,7 @@ PairSeen == sock \/ iceT = "Closed"
 
 C_Start ==
     /\ cp = "starting"
+    /\ (Mode = "Srtp") => ap \in {"signaled", "reneg"}      \* SDES needs both descriptions
     /\ \E havePair \in {b \in BOOLEAN : (b => PairSeen) /\ (~b => ~sock)} :
        IF ~havePair
        THEN /\ cp' = "pre:conn.start_failed" /\ cval' = "Failed" /\ cnext' = "retFalse"
@@ -763,6 +791,7 @@ A_CallWfc ==
 -----------------------------------------------------------------------------
 Next ==
     \/ A_MakeOffer \/ A_GatherDone \/ A_SetLocal \/ A_SetRemote \/ A_Reneg \/ A_SigLate
+    \/ A_SetRemoteOffer \/ A_SetLocalAnswer
     \/ \E k \in 1..3 : A_Close1(k) \/ A_Close2(k) \/ A_Close3(k) \/ A_Close4(k) \/ A_Close5(k)
     \/ InnerDrop \/ AbortTracked
     \/ L_Top \/ L_SawChecking \/ L_Wait \/ L_EnterConn \/ L_PubFailed \/ L_PubClosed \/ L_ConnReturn
@@ -786,7 +815,8 @@ Fairness ==
     /\ WF_vars(InnerDrop \/ AbortTracked)
     /\ WF_vars(R_WaitConnected)
     /\ WF_vars(R_SendCheck \/ R_SendPark)
-    /\ WF_vars(A_MakeOffer \/ A_GatherDone \/ A_SetLocal \/ A_SetRemote \/ A_Reneg)
+    /\ WF_vars(A_MakeOffer \/ A_GatherDone \/ A_SetLocal \/ A_SetRemote \/ A_Reneg \/ A_SetRemoteOffer
+               \/ A_SetLocalAnswer)
     /\ WF_vars(A_CallWfc)
 
 Spec == Init /\ [][Next]_vars /\ Fairness
